@@ -789,6 +789,11 @@ func (s *State) applyFunction(name string, fn object.Object, args []object.Objec
 	if object.HasFunction(res) {
 		return res
 	}
+	// Nothing computed while the evaluation is being interrupted is remembered: an extension (sleep, unjson...) reports
+	// the deadline itself and catch() turns that error into an ordinary value.
+	if s.Context != nil && s.Context.Err() != nil {
+		return res
+	}
 	s.cache.Set(function.CacheKey, args, res, output)
 	log.Debugf("Cache miss for %s %v", function.CacheKey, args)
 	return res
